@@ -15,8 +15,8 @@ sys.path.insert(0, os.path.join(HERE, "lib"))
 import build  # noqa: E402
 from props import PROPS  # noqa: E402
 
-EVID = os.path.join(HERE, "evidence")
-REPLAYS = os.path.join(HERE, "replays")
+EVID = os.environ.get("VERIF_EVIDENCE_DIR", os.path.join(HERE, "evidence"))
+REPLAYS = os.environ.get("VERIF_REPLAY_DIR", os.path.join(HERE, "replays"))
 KNOWN = os.path.join(HERE, "known_findings.json")
 
 
